@@ -4,7 +4,7 @@ use crate::ast::node::Node;
 use crate::ast::Ast;
 use crate::diagnostics::{Diagnostic, Diagnostics, Error, Note};
 use crate::grammar::*;
-use std::collections::{BTreeSet, HashSet};
+use std::collections::{BTreeSet, HashMap, HashSet};
 
 /// Checks every interface for inheritance cycles (interfaces that inherit from themselves, directly or transitively).
 pub(super) fn detect_inheritance_cycles(ast: &Ast, diagnostics: &mut Diagnostics) {
@@ -82,8 +82,30 @@ pub(super) fn detect_type_alias_cycles(ast: &Ast, diagnostics: &mut Diagnostics)
 }
 
 pub(super) fn detect_cycles(ast: &Ast, diagnostics: &mut Diagnostics) {
+    // For every struct and enum, compute which types directly use it (through any number of anonymous types).
+    let mut users: HashMap<String, Vec<String>> = HashMap::new();
+    for node in ast.as_slice() {
+        let (user_id, fields): (String, Vec<&Field>) = match node {
+            Node::Struct(struct_def) => (struct_def.borrow().module_scoped_identifier(), struct_def.borrow().fields()),
+            Node::Enum(enum_def) => {
+                let enumerators = enum_def.borrow().enumerators();
+                let fields = enumerators.into_iter().flat_map(Enumerator::fields).collect();
+                (enum_def.borrow().module_scoped_identifier(), fields)
+            }
+            _ => continue,
+        };
+        for field in fields {
+            let mut used_types = Vec::new();
+            collect_used_types(field.data_type(), &mut used_types);
+            for used_type in used_types {
+                users.entry(used_type).or_default().push(user_id.clone());
+            }
+        }
+    }
+
     let mut cycle_detector = CycleDetector {
         type_being_checked: None,
+        types_using_checked_type: HashSet::new(),
         dependency_stack: Vec::new(),
         reported_cycles: HashSet::new(),
         diagnostics,
@@ -99,8 +121,40 @@ pub(super) fn detect_cycles(ast: &Ast, diagnostics: &mut Diagnostics) {
         };
 
         debug_assert!(cycle_detector.dependency_stack.is_empty());
+
+        // Compute every type that uses the candidate, directly or indirectly. Only these types can be part of a cycle
+        // through the candidate, so we never need to search through any other type while checking it.
+        let mut types_using_candidate = HashSet::new();
+        let mut pending = vec![candidate.module_scoped_identifier()];
+        while let Some(type_id) = pending.pop() {
+            for user in users.get(&type_id).into_iter().flatten() {
+                if types_using_candidate.insert(user.clone()) {
+                    pending.push(user.clone());
+                }
+            }
+        }
+        cycle_detector.types_using_checked_type = types_using_candidate;
+
         cycle_detector.type_being_checked = Some((candidate.module_scoped_identifier(), candidate));
         candidate.check_for_cycles(&mut cycle_detector)
+    }
+}
+
+/// Collects the type-ids of all the structs and enums used by the provided type reference (looking through anonymous types).
+fn collect_used_types(type_ref: &TypeRef, used_types: &mut Vec<String>) {
+    match type_ref.concrete_type() {
+        Types::Struct(struct_ref) => used_types.push(struct_ref.module_scoped_identifier()),
+        Types::Enum(enum_ref) => used_types.push(enum_ref.module_scoped_identifier()),
+        Types::ResultType(result_type) => {
+            collect_used_types(&result_type.success_type, used_types);
+            collect_used_types(&result_type.failure_type, used_types);
+        }
+        Types::Sequence(sequence) => collect_used_types(&sequence.element_type, used_types),
+        Types::Dictionary(dictionary) => {
+            collect_used_types(&dictionary.key_type, used_types);
+            collect_used_types(&dictionary.value_type, used_types);
+        }
+        Types::Primitive(_) | Types::CustomType(_) => {}
     }
 }
 
@@ -129,6 +183,9 @@ impl<'a> CycleCandidate<'a> for Enum {
 struct CycleDetector<'a> {
     /// Stores a tuple of `(type_id, reference)` for the type currently being checked for cycles.
     type_being_checked: Option<(String, &'a dyn CycleCandidate<'a>)>,
+
+    /// Stores the type-ids of all the types that use the type currently being checked, directly or indirectly.
+    types_using_checked_type: HashSet<String>,
 
     /// A stack containing all the fields we've seen in the dependency tree we're currently traversing through.
     /// Each stack element is made up of the type-id of the field's type, and a reference to the field itself.
@@ -179,6 +236,12 @@ impl<'a> CycleDetector<'a> {
             self.dependency_stack.push((candidate_type_string, origin));
             self.report_cycle_error();
             self.dependency_stack.pop();
+            return;
+        }
+
+        // If the candidate doesn't use the type we're checking (even indirectly), it can't be part of a cycle through
+        // that type, so there's no need to search through it.
+        if !self.types_using_checked_type.contains(&candidate_type_string) {
             return;
         }
 
